@@ -11,6 +11,9 @@ func init() {
 		Gen: func(r *rand.Rand, tier string, idx int) Case {
 			a := genC12Act(r, 0, 1+r.Intn(3), 3, "r", 0)
 			data := map[string]any{"flag": []string{"yes", "no"}[r.Intn(2)]}
+			for k, v := range c12Pads {
+				data[k] = v
+			}
 			s, f := treeStats(a)
 			return execCase("tree", a, data, s >= 2 && f)
 		},
